@@ -23,7 +23,7 @@ impl File {
     //@[ T: iterator adapters / formatting outside the supported subset (body not verified)
     #[verifier::external_body]
     //@]
-    pub fn get_rules(&self) -> impl Iterator<Item = Rule> {
+    pub fn get_rules(&self) -> impl Iterator<Item = Rule> /*@[ assumed contract (T leaf): the listed rules are file_rules(self); vx_gram::axiom_file_rules_fieldsets states what is assumed of them*//*@]*/{
         self.nonterminals
             .iter()
             .flat_map(|nonterminal| match nonterminal {
